@@ -5,6 +5,8 @@
    n.(t - s) of the property's linearised problem; unknowns (tau, omega). *)
 From Coq Require Import Reals List Arith Lia Lra Bool.
 From Romea Require Import Num NumR LinAlgBModel LinAlgBProofs LsModel LsProofs LsHistoryProofs P2pModel P2pProofs P2pSecondOrder.
+From Romea Require Import SrcP2pLib SrcTieC05 SrcTieC05R.
+From Romea.gen Require Import SrcP2p.
 Import ListNotations.
 Local Open Scope R_scope.
 
@@ -311,3 +313,231 @@ Example C05_exact_motion_3d_satisfiable : forall theta,
   sq3 ez = 1 /\
   exact_motion_3d theta ez (fun _ => 0) 3 [(([1; 0; 5], [cos theta; sin theta; 5]), [0; 1; 0])].
 Proof. exact exact_motion_3d_example. Qed.
+
+(* ================================================================================================================
+   SYNTACTIC SOURCE TIE.  gen/SrcP2p.v is regenerated on every run by translate/tr_C05_p2p.py from the clang AST of the
+   INSTANTIATED members of FindRigidTransformationByLeastSquares<PointType> in the current source (PointType =
+   Eigen::Vector2 / Vector3 / HomogeneousCoordinates2 / HomogeneousCoordinates3 = tags V2 / V3 / H2 / H3; the float and the
+   double instantiation give the same term): the constructor, setPreconditioner, the two estimate_ overloads (aligned
+   arrays / correspondence vector; only the `CARTESIAN_DIM == 2` branch that is taken is executed) and the four public find
+   overloads.  In the generated terms the member leastSquares_ is an abstract object of type Ls and the methods called on
+   it are the fields, bound by name, of an argument M : LsMethods T Ls (coq/SrcP2pLib.v: F_new, F_setEstimateSize,
+   F_setDataSize, F_getJ_set = `J(i, j) = v`, F_getY_set = `Y(i) = v`, F_estimateUsingSVD, F_setPreconditionner).  The
+   theorems below hold for EVERY numeric dictionary N — the generated terms and the model perform the same dictionary
+   operations in the same order — and instantiate (Ls, M) in three ways (coq/SrcTieC05.v):
+     fJY, f_methods N x : Ls = (nat -> nat -> T) * (nat -> T), the coefficients of J and Y as functions of the indexes
+             (F_getJ_set / F_getY_set update one coefficient, the solver answers x) — what the row-filling loop writes;
+     unit, u_methods x  : the solver plays no role and answers x — what is returned;
+     option ls_state, o_methods N svd_of fill svd_fixed : the state of LsModel.v; coefficient writes o_setJ / o_setY (outside
+             the buffers: undefined behaviour, None), setDataSize = ls_set_data_size, estimateUsingSVD = ls_estimate_svd
+             (svd_fixed = true) / ls_estimate_svd_abs, setEstimateSize, setPreconditionner, LeastSquares() = ls_new0 — the
+             whole call; [pack] turns (state, matrix) into the option result of the model.
+   dtriple = (([], []), []) is the default triple of the [nth] lookups. *)
+
+(* rows, 2D: for an input the model accepts, after estimate_ (started on ANY coefficients s0) row r of J is p2p_row of the
+   r-th triple (the normal is the one of the TARGET index), Y(r) = n_r . (t_r - s_r) over the stored coordinates (2 for
+   Vector2, 3 for HomogeneousCoordinates2), for every r below the number of correspondences / points; all other
+   coefficients are untouched.  Correspondence-vector overload and aligned overload. *)
+Theorem C05_source_tie_rows_2d :
+  forall (T : Type) (N : NumOps T) (src tgt nrm : list (list T)) (corr : list (nat * nat))
+         (tr : list ((list T * list T) * list T)) (x : list T) (s0 : fJY (T:=T)),
+  let S r := fst (fst (nth r tr dtriple)) in let Tg r := snd (fst (nth r tr dtriple)) in let Nr r := snd (nth r tr dtriple) in
+  let spec (ps : nat) (s : fJY (T:=T)) :=
+    (forall r, (r < length tr)%nat ->
+       (forall c, (c < 3)%nat -> fst s r c = vget N (p2p_row N 2 (S r) (Nr r)) c) /\ snd s r = p2p_y N ps (S r) (Tg r) (Nr r)) /\
+    (forall r, (length tr <= r)%nat -> (forall c, fst s r c = fst s0 r c) /\ snd s r = snd s0 r) in
+  (triples_of_corr src tgt nrm corr = Some tr ->
+     spec 2%nat (fst (src_estimate_corr_V2 N fJY (f_methods N x) src tgt nrm corr s0)) /\
+     spec 3%nat (fst (src_estimate_corr_H2 N fJY (f_methods N x) src tgt nrm corr s0))) /\
+  (triples_aligned src tgt nrm = Some tr ->
+     spec 2%nat (fst (src_estimate_aligned_V2 N fJY (f_methods N x) src tgt nrm s0)) /\
+     spec 3%nat (fst (src_estimate_aligned_H2 N fJY (f_methods N x) src tgt nrm s0))).
+Proof. exact (fun T N => source_tie_rows_2d N). Qed.
+Print Assumptions C05_source_tie_rows_2d.
+
+(* rows, 3D: [n, s x n] in columns 0..5, stored coordinates 3 (Vector3) / 4 (HomogeneousCoordinates3) *)
+Theorem C05_source_tie_rows_3d :
+  forall (T : Type) (N : NumOps T) (src tgt nrm : list (list T)) (corr : list (nat * nat))
+         (tr : list ((list T * list T) * list T)) (x : list T) (s0 : fJY (T:=T)),
+  let S r := fst (fst (nth r tr dtriple)) in let Tg r := snd (fst (nth r tr dtriple)) in let Nr r := snd (nth r tr dtriple) in
+  let spec (ps : nat) (s : fJY (T:=T)) :=
+    (forall r, (r < length tr)%nat ->
+       (forall c, (c < 6)%nat -> fst s r c = vget N (p2p_row N 3 (S r) (Nr r)) c) /\ snd s r = p2p_y N ps (S r) (Tg r) (Nr r)) /\
+    (forall r, (length tr <= r)%nat -> (forall c, fst s r c = fst s0 r c) /\ snd s r = snd s0 r) in
+  (triples_of_corr src tgt nrm corr = Some tr ->
+     spec 3%nat (fst (src_estimate_corr_V3 N fJY (f_methods N x) src tgt nrm corr s0)) /\
+     spec 4%nat (fst (src_estimate_corr_H3 N fJY (f_methods N x) src tgt nrm corr s0))) /\
+  (triples_aligned src tgt nrm = Some tr ->
+     spec 3%nat (fst (src_estimate_aligned_V3 N fJY (f_methods N x) src tgt nrm s0)) /\
+     spec 4%nat (fst (src_estimate_aligned_H3 N fJY (f_methods N x) src tgt nrm s0))).
+Proof. exact (fun T N => source_tie_rows_3d N). Qed.
+Print Assumptions C05_source_tie_rows_3d.
+
+(* scatter: whatever vector x the solver returns, the matrix returned by each of the eight estimate_ bodies is p2p_scatter x
+   (2D: [1 -x2 x0; x2 1 x1; 0 0 1], 3D: I + [x3 x4 x5]x with translation x0 x1 x2) *)
+Theorem C05_source_tie_scatter :
+  forall (T : Type) (N : NumOps T) (src tgt nrm : list (list T)) (corr : list (nat * nat)) (x : list T),
+  (snd (src_estimate_corr_V2 N unit (u_methods x) src tgt nrm corr tt) = p2p_scatter N 2 x /\
+   snd (src_estimate_corr_H2 N unit (u_methods x) src tgt nrm corr tt) = p2p_scatter N 2 x /\
+   snd (src_estimate_aligned_V2 N unit (u_methods x) src tgt nrm tt) = p2p_scatter N 2 x /\
+   snd (src_estimate_aligned_H2 N unit (u_methods x) src tgt nrm tt) = p2p_scatter N 2 x) /\
+  (snd (src_estimate_corr_V3 N unit (u_methods x) src tgt nrm corr tt) = p2p_scatter N 3 x /\
+   snd (src_estimate_corr_H3 N unit (u_methods x) src tgt nrm corr tt) = p2p_scatter N 3 x /\
+   snd (src_estimate_aligned_V3 N unit (u_methods x) src tgt nrm tt) = p2p_scatter N 3 x /\
+   snd (src_estimate_aligned_H3 N unit (u_methods x) src tgt nrm tt) = p2p_scatter N 3 x).
+Proof. exact (fun T N => source_tie_scatter N). Qed.
+Print Assumptions C05_source_tie_scatter.
+
+(* the whole call: on the LsModel state, from ANY solver state ready for the estimate size, each generated estimate_ IS
+   p2p_find_corr / p2p_find_aligned (= p2p_estimate on the model's triples: setDataSize, the row ops, the SVD estimate, the
+   scatter) — the function C05_p2p_normal_equations_and_minimiser and the second-order theorems are about *)
+Theorem C05_source_tie_estimate :
+  forall (T : Type) (N : NumOps T) inverse_of svd_of (fill : T) (svd_fixed : bool)
+         (src tgt nrm : list (list T)) (corr : list (nat * nat)) (tr : list ((list T * list T) * list T)) (st : ls_state (T:=T)),
+  let om := o_methods N svd_of fill svd_fixed in
+  (triples_of_corr src tgt nrm corr = Some tr ->
+     (ready 3 st ->
+        pack (src_estimate_corr_V2 N (option ls_state) om src tgt nrm corr (Some st))
+        = p2p_find_corr N inverse_of svd_of fill svd_fixed 2 2 src tgt nrm corr st /\
+        pack (src_estimate_corr_H2 N (option ls_state) om src tgt nrm corr (Some st))
+        = p2p_find_corr N inverse_of svd_of fill svd_fixed 2 3 src tgt nrm corr st) /\
+     (ready 6 st ->
+        pack (src_estimate_corr_V3 N (option ls_state) om src tgt nrm corr (Some st))
+        = p2p_find_corr N inverse_of svd_of fill svd_fixed 3 3 src tgt nrm corr st /\
+        pack (src_estimate_corr_H3 N (option ls_state) om src tgt nrm corr (Some st))
+        = p2p_find_corr N inverse_of svd_of fill svd_fixed 3 4 src tgt nrm corr st)) /\
+  (triples_aligned src tgt nrm = Some tr ->
+     (ready 3 st ->
+        pack (src_estimate_aligned_V2 N (option ls_state) om src tgt nrm (Some st))
+        = p2p_find_aligned N inverse_of svd_of fill svd_fixed 2 2 src tgt nrm st /\
+        pack (src_estimate_aligned_H2 N (option ls_state) om src tgt nrm (Some st))
+        = p2p_find_aligned N inverse_of svd_of fill svd_fixed 2 3 src tgt nrm st) /\
+     (ready 6 st ->
+        pack (src_estimate_aligned_V3 N (option ls_state) om src tgt nrm (Some st))
+        = p2p_find_aligned N inverse_of svd_of fill svd_fixed 3 3 src tgt nrm st /\
+        pack (src_estimate_aligned_H3 N (option ls_state) om src tgt nrm (Some st))
+        = p2p_find_aligned N inverse_of svd_of fill svd_fixed 3 4 src tgt nrm st)).
+Proof. exact (fun T N => source_tie_estimate N). Qed.
+Print Assumptions C05_source_tie_estimate.
+
+(* the public find overloads are estimate_ (for any solver object); the PreconditionedPointSet overloads are estimate_ on the
+   point sets returned by get() *)
+Theorem C05_source_tie_find :
+  forall (T : Type) (N : NumOps T) (Ls : Type) (M : LsMethods T Ls) (src tgt nrm : list (list T)) (corr : list (nat * nat)) (ls : Ls),
+  (src_find_corr_V2 N Ls M src tgt nrm corr ls = src_estimate_corr_V2 N Ls M src tgt nrm corr ls /\
+   src_find_aligned_V2 N Ls M src tgt nrm ls = src_estimate_aligned_V2 N Ls M src tgt nrm ls /\
+   src_find_pre_corr_V2 N Ls M nrm corr ls src tgt = src_estimate_corr_V2 N Ls M src tgt nrm corr ls /\
+   src_find_pre_aligned_V2 N Ls M nrm ls src tgt = src_estimate_aligned_V2 N Ls M src tgt nrm ls) /\
+  (src_find_corr_H2 N Ls M src tgt nrm corr ls = src_estimate_corr_H2 N Ls M src tgt nrm corr ls /\
+   src_find_aligned_H2 N Ls M src tgt nrm ls = src_estimate_aligned_H2 N Ls M src tgt nrm ls /\
+   src_find_pre_corr_H2 N Ls M nrm corr ls src tgt = src_estimate_corr_H2 N Ls M src tgt nrm corr ls /\
+   src_find_pre_aligned_H2 N Ls M nrm ls src tgt = src_estimate_aligned_H2 N Ls M src tgt nrm ls) /\
+  (src_find_corr_V3 N Ls M src tgt nrm corr ls = src_estimate_corr_V3 N Ls M src tgt nrm corr ls /\
+   src_find_aligned_V3 N Ls M src tgt nrm ls = src_estimate_aligned_V3 N Ls M src tgt nrm ls /\
+   src_find_pre_corr_V3 N Ls M nrm corr ls src tgt = src_estimate_corr_V3 N Ls M src tgt nrm corr ls /\
+   src_find_pre_aligned_V3 N Ls M nrm ls src tgt = src_estimate_aligned_V3 N Ls M src tgt nrm ls) /\
+  (src_find_corr_H3 N Ls M src tgt nrm corr ls = src_estimate_corr_H3 N Ls M src tgt nrm corr ls /\
+   src_find_aligned_H3 N Ls M src tgt nrm ls = src_estimate_aligned_H3 N Ls M src tgt nrm ls /\
+   src_find_pre_corr_H3 N Ls M nrm corr ls src tgt = src_estimate_corr_H3 N Ls M src tgt nrm corr ls /\
+   src_find_pre_aligned_H3 N Ls M nrm ls src tgt = src_estimate_aligned_H3 N Ls M src tgt nrm ls).
+Proof. exact (fun T N => source_tie_find N). Qed.
+Print Assumptions C05_source_tie_find.
+
+(* constructor (default-constructed solver, estimate size 3 | 6) and setPreconditioner (Ac = Identity with the leading
+   d x d block divided by the (0,0) coefficient of the TARGET set's preconditioning matrix, one-argument setPreconditionner) *)
+Theorem C05_source_tie_new_and_preconditioner :
+  forall (T : Type) (N : NumOps T) svd_of (fill : T) (svd_fixed : bool) (st : ls_state (T:=T)) (P : list (list T)),
+  let om := o_methods N svd_of fill svd_fixed in
+  (src_new_V2 (option ls_state) om = Some (p2p_new N 2) /\ src_new_H2 (option ls_state) om = Some (p2p_new N 2) /\
+   src_new_V3 (option ls_state) om = Some (p2p_new N 3) /\ src_new_H3 (option ls_state) om = Some (p2p_new N 3)) /\
+  (src_setPreconditioner_V2 N (option ls_state) om (Some st) P = Some (p2p_set_preconditioner N 2 (mget N P 0 0) st) /\
+   src_setPreconditioner_H2 N (option ls_state) om (Some st) P = Some (p2p_set_preconditioner N 2 (mget N P 0 0) st) /\
+   src_setPreconditioner_V3 N (option ls_state) om (Some st) P = Some (p2p_set_preconditioner N 3 (mget N P 0 0) st) /\
+   src_setPreconditioner_H3 N (option ls_state) om (Some st) P = Some (p2p_set_preconditioner N 3 (mget N P 0 0) st)).
+Proof. exact (fun T N svd_of fill svd_fixed st P => conj (tie_new N svd_of fill svd_fixed) (tie_setPreconditioner N svd_of fill svd_fixed st P)). Qed.
+Print Assumptions C05_source_tie_new_and_preconditioner.
+
+(* COROLLARY: C05's residual identity (first theorem of this file) stated directly about the coefficients written by the
+   generated row-filling loops, real dictionary:  (row r of J) . z - Y(r) = n_r . ((I + [w]x) s_r + tau - t_r), z = (tau, w);
+   homogeneous point types under the hypothesis that source and target carry the same last coordinate.
+   tsrc / ttgt / tnrm tr r = source / target / normal of the r-th triple. *)
+Theorem C05_source_tie_residual_identity_2d :
+  forall (src tgt nrm : list (list R)) (corr : list (nat * nat)) tr (x : list R) (s0 : fJY (T:=R)) (z : nat -> R) (r : nat),
+  (r < length tr)%nat ->
+  let s_ := tsrc tr r in let t_ := ttgt tr r in let n_ := tnrm tr r in
+  let res (s : fJY (T:=R)) := Rsum 3 (fun c => fst s r c * z c) - snd s r in
+  let lin := vget ROps n_ 0 * ((vget ROps s_ 0 - z 2%nat * vget ROps s_ 1) + z 0%nat - vget ROps t_ 0) +
+             vget ROps n_ 1 * ((vget ROps s_ 1 + z 2%nat * vget ROps s_ 0) + z 1%nat - vget ROps t_ 1) in
+  let same_w := vget ROps s_ 2 = vget ROps t_ 2 in
+  (triples_of_corr src tgt nrm corr = Some tr ->
+     res (fst (src_estimate_corr_V2 ROps fJY (f_methods ROps x) src tgt nrm corr s0)) = lin /\
+     (same_w -> res (fst (src_estimate_corr_H2 ROps fJY (f_methods ROps x) src tgt nrm corr s0)) = lin)) /\
+  (triples_aligned src tgt nrm = Some tr ->
+     res (fst (src_estimate_aligned_V2 ROps fJY (f_methods ROps x) src tgt nrm s0)) = lin /\
+     (same_w -> res (fst (src_estimate_aligned_H2 ROps fJY (f_methods ROps x) src tgt nrm s0)) = lin)).
+Proof. exact source_residual_identity_2d. Qed.
+Print Assumptions C05_source_tie_residual_identity_2d.
+
+Theorem C05_source_tie_residual_identity_3d :
+  forall (src tgt nrm : list (list R)) (corr : list (nat * nat)) tr (x : list R) (s0 : fJY (T:=R)) (z : nat -> R) (r : nat),
+  (r < length tr)%nat ->
+  let s_ := tsrc tr r in let t_ := ttgt tr r in let n_ := tnrm tr r in
+  let res (s : fJY (T:=R)) := Rsum 6 (fun c => fst s r c * z c) - snd s r in
+  let lin := vget ROps n_ 0 * ((vget ROps s_ 0 + (z 4%nat * vget ROps s_ 2 - z 5%nat * vget ROps s_ 1)) + z 0%nat - vget ROps t_ 0) +
+             vget ROps n_ 1 * ((vget ROps s_ 1 + (z 5%nat * vget ROps s_ 0 - z 3%nat * vget ROps s_ 2)) + z 1%nat - vget ROps t_ 1) +
+             vget ROps n_ 2 * ((vget ROps s_ 2 + (z 3%nat * vget ROps s_ 1 - z 4%nat * vget ROps s_ 0)) + z 2%nat - vget ROps t_ 2) in
+  let same_w := vget ROps s_ 3 = vget ROps t_ 3 in
+  (triples_of_corr src tgt nrm corr = Some tr ->
+     res (fst (src_estimate_corr_V3 ROps fJY (f_methods ROps x) src tgt nrm corr s0)) = lin /\
+     (same_w -> res (fst (src_estimate_corr_H3 ROps fJY (f_methods ROps x) src tgt nrm corr s0)) = lin)) /\
+  (triples_aligned src tgt nrm = Some tr ->
+     res (fst (src_estimate_aligned_V3 ROps fJY (f_methods ROps x) src tgt nrm s0)) = lin /\
+     (same_w -> res (fst (src_estimate_aligned_H3 ROps fJY (f_methods ROps x) src tgt nrm s0)) = lin)).
+Proof. exact source_residual_identity_3d. Qed.
+Print Assumptions C05_source_tie_residual_identity_3d.
+
+(* COROLLARY: the property's main claim (C05_p2p_normal_equations_and_minimiser) stated directly about the GENERATED
+   estimate_ bodies run on the LsModel state (repaired SVD path): whenever such a call returns (st2, H), H = scatter x,
+   x = Ac z + Bc, and — under the SVD contract with all singular values above the threshold — z satisfies the normal
+   equations of the linearised problem of THESE triples, minimises its cost and is the only minimiser. *)
+Theorem C05_source_tie_normal_equations_and_minimiser :
+  forall inverse_of svd_of (fill : R) (src tgt nrm : list (list R)) (corr : list (nat * nat)) tr (st : ls_state (T:=R)),
+  let om := o_methods ROps svd_of fill true in
+  let spec (d ps : nat) (res : option (ls_state (T:=R) * list (list R))) :=
+    forall st2 H, res = Some (st2, H) ->
+    exists st1 x,
+      p2p_load ROps inverse_of svd_of fill true d ps tr st = Some st1 /\
+      ls_estimate_svd ROps svd_of st1 = Some (st2, x) /\ H = p2p_scatter ROps d x /\
+      (svd_contract (p2p_k d) (ls_JtJ ROps st1) (svd_of (p2p_k d) (ls_JtJ ROps st1)) -> svd_all_above svd_of st1 ->
+       let n := length tr in let k := p2p_k d in
+       let z := ls_z st1 (svd_pinv ROps k (svd_thr svd_of st1) (svd_of k (ls_JtJ ROps st1))) in
+       (forall i, (i < k)%nat -> vget ROps x i = Rsum k (fun l => mget ROps (ls_A st) i l * z l) + vget ROps (ls_b st) i) /\
+       (forall i, (i < k)%nat -> grad n k (Jp d tr) (Yp ps tr) z i = 0) /\
+       (forall y, cost n k (Jp d tr) (Yp ps tr) z <= cost n k (Jp d tr) (Yp ps tr) y) /\
+       (forall y, cost n k (Jp d tr) (Yp ps tr) y = cost n k (Jp d tr) (Yp ps tr) z -> forall i, (i < k)%nat -> y i = z i)) in
+  (1 <= length tr)%nat ->
+  (triples_of_corr src tgt nrm corr = Some tr ->
+     (ready 3 st ->
+        spec 2%nat 2%nat (pack (src_estimate_corr_V2 ROps (option ls_state) om src tgt nrm corr (Some st))) /\
+        spec 2%nat 3%nat (pack (src_estimate_corr_H2 ROps (option ls_state) om src tgt nrm corr (Some st)))) /\
+     (ready 6 st ->
+        spec 3%nat 3%nat (pack (src_estimate_corr_V3 ROps (option ls_state) om src tgt nrm corr (Some st))) /\
+        spec 3%nat 4%nat (pack (src_estimate_corr_H3 ROps (option ls_state) om src tgt nrm corr (Some st))))) /\
+  (triples_aligned src tgt nrm = Some tr ->
+     (ready 3 st ->
+        spec 2%nat 2%nat (pack (src_estimate_aligned_V2 ROps (option ls_state) om src tgt nrm (Some st))) /\
+        spec 2%nat 3%nat (pack (src_estimate_aligned_H2 ROps (option ls_state) om src tgt nrm (Some st)))) /\
+     (ready 6 st ->
+        spec 3%nat 3%nat (pack (src_estimate_aligned_V3 ROps (option ls_state) om src tgt nrm (Some st))) /\
+        spec 3%nat 4%nat (pack (src_estimate_aligned_H3 ROps (option ls_state) om src tgt nrm (Some st))))).
+Proof. exact source_estimate_correct. Qed.
+Print Assumptions C05_source_tie_normal_equations_and_minimiser.
+
+(* ---- non-vacuity of the source-tie hypotheses: an accepted correspondence input (the normal of correspondence (1,0) is
+        normal 0, the TARGET's) and accepted aligned arrays; a fresh estimator is ready (C05_fresh_estimator_ready) ---- *)
+Example C05_source_tie_inputs_accepted :
+  triples_of_corr [[1; 2]; [3; 4]] [[5; 6]; [7; 8]] [[0; 1]; [1; 0]] [(1, 0); (0, 1)]%nat
+    = Some [(([3; 4], [5; 6]), [0; 1]); (([1; 2], [7; 8]), [1; 0])] /\
+  triples_aligned [[1; 2]; [3; 4]] [[5; 6]; [7; 8]] [[0; 1]; [1; 0]]
+    = Some [(([1; 2], [5; 6]), [0; 1]); (([3; 4], [7; 8]), [1; 0])].
+Proof. split; reflexivity. Qed.
